@@ -96,7 +96,10 @@ type vC04Oracle struct {
 
 // noRead: per source chain the one oracle that does not read it (-1: everybody reads it); with f = 1 per chain every
 // chain keeps its 3 = 2f+1 designated readers, the destination is read by everybody
-func vC04NewOracle(w *vC04World, id int, maxTree uint64, noRead map[cciptypes.ChainSelector]int) *vC04Oracle {
+// fDest: the destination's f in the home-chain config (1; 2 in the "fdest2" histories, where f_dest differs from the
+// source chains' f = 1: off-ramp next numbers are destination data and need 2*f_dest+1 = 5 reporters — with four
+// oracles none is ever agreed and nothing is selected; before fixes/F26.patch the source chains' 2*1+1 = 3 decided)
+func vC04NewOracle(w *vC04World, id int, maxTree uint64, noRead map[cciptypes.ChainSelector]int, fDest int) *vC04Oracle {
 	o := &vC04Oracle{id: id}
 	hc := vNewHomeChain()
 	m := map[commontypes.OracleID]libocrtypes.PeerID{}
@@ -105,7 +108,7 @@ func vC04NewOracle(w *vC04World, id int, maxTree uint64, noRead map[cciptypes.Ch
 		m[commontypes.OracleID(i)] = vPeer(i)
 		peers = append(peers, vPeer(i))
 	}
-	hc.SetChain(vC04Dest, 1, peers)
+	hc.SetChain(vC04Dest, fDest, peers)
 	for _, ch := range vC04Sources {
 		var readers []libocrtypes.PeerID
 		for i := 0; i < vC04N; i++ {
@@ -240,9 +243,14 @@ func TestVerif_C04_history(t *testing.T) {
 				cls += fmt.Sprintf("-role%d!%d", noRead[ch], ch)
 			}
 		}
+		fDest := 1
+		if hi%8 == 5 {
+			fDest = 2
+			cls += "-fdest2"
+		}
 		oracles := make([]*vC04Oracle, vC04N)
 		for i := range oracles {
-			oracles[i] = vC04NewOracle(w, i, maxTree, noRead)
+			oracles[i] = vC04NewOracle(w, i, maxTree, noRead, fDest)
 			oracles[i].lag = uint64(r.Intn(3))
 		}
 		var prev ocr3types.Outcome
